@@ -9,7 +9,7 @@ def main():
         shutil.copytree(vlib.SPEC, sd)
         bad = 0
         for f in sorted(glob.glob(os.path.join(sd, "*.tla"))):
-            p = subprocess.run(["java", "-cp", vlib.TLA_CP, "tla2sany.SANY", os.path.basename(f)], cwd=sd,
+            p = subprocess.run(["java", "-DTLA-Library=/opt/veriftools/tlapm/lib/tlapm/stdlib", "-cp", vlib.TLA_CP, "tla2sany.SANY", os.path.basename(f)], cwd=sd,
                                stdout=subprocess.PIPE, stderr=subprocess.STDOUT, text=True)
             if p.returncode != 0 or "Semantic errors" in p.stdout or "Parse Error" in p.stdout or "Fatal" in p.stdout or "Could not parse" in p.stdout:
                 print("SANY FAILED:", os.path.basename(f)); print(p.stdout[-1500:]); bad += 1
